@@ -196,7 +196,7 @@ def handshake_family(work, name, family, tier, seed, opts=None, workers=16, metr
             "subst": dict(subst, opts=opts)}
 
 
-def walk_family(work, name, module, cfg_tpl, family, tier, seed, workers=16, opts=None, extra_subst=None, race=False):
+def walk_family(work, name, module, cfg_tpl, family, tier, seed, workers=16, opts=None, extra_subst=None, race=False, metrics=False):
     """Scenarios whose expectation travels in `exp` (TraceWalk.tla)."""
     subst = dict(SEED=seed, FAMILY=family, TIER=tier)
     if extra_subst:
@@ -215,7 +215,10 @@ def walk_family(work, name, module, cfg_tpl, family, tier, seed, workers=16, opt
                 d = json.loads(line)
                 d["opts"] = dict(d.get("opts") or {}, **opts)
                 o.write(json.dumps(d) + "\n")
-    traces, info = replay(src, work, name, workers=workers, race=race)
+    if metrics:
+        traces, info = replay_sharded_procs(src, work, name)
+    else:
+        traces, info = replay(src, work, name, workers=workers, race=race)
     t2 = time.time()
     tracecfg = os.path.join(work, name + ".tracecfg.json")
     json.dump({"known": known_pairs()}, open(tracecfg, "w"))
